@@ -453,6 +453,8 @@ declspecs(struct scope *s, enum storageclass *sc, enum funcspec *fs, int *align)
 			next();
 			expect(TLPAREN, "after 'alignas'");
 			other = typename(s, NULL, NULL);
+			if (other && (other->kind == TYPEFUNC || other->incomplete))
+				error(&tok.loc, "alignment specifier with function or incomplete type");
 			i = other ? other->align : intconstexpr(s, false);
 			if (i & i - 1 || i > INT_MAX)
 				error(&tok.loc, "invalid alignment: %llu", i);
@@ -1046,6 +1048,8 @@ decl(struct scope *s, struct func *f)
 				error(&tok.loc, "typedef '%s' declared with alignment specifier", name);
 			if (asmname)
 				error(&tok.loc, "typedef '%s' declared with assembler label", name);
+			if (!f && t->prop & PROPVM)
+				error(&tok.loc, "typedef '%s' at file scope cannot have variably modified type", name);
 			if (!prior)
 				scopeputdecl(s, mkdecl(name, DECLTYPE, t, tq, LINKNONE));
 			else if (!typesame(prior->type, t) || prior->qual != tq)
